@@ -166,6 +166,7 @@ type Obligation struct {
 	Detail  string
 	ModelOf []ModelVar // values to read back from a model
 	Bounded string     // non-empty: bounded stand-in label
+	Parts   []clausePart // conjuncts (diagnostics only)
 }
 
 type ModelVar struct {
